@@ -23,6 +23,15 @@ theorem const_cap_pos : 1 ≤ Gen.maxSessionACLCache := by decide
 /-- the value the property text quotes -/
 theorem const_cap : Gen.maxSessionACLCache = 256 := by decide
 
+/-! ### the skeleton of the functions modelled (regenerated from the source; see Hy.Props.C07) -/
+
+theorem skeleton_Feed : Gen.udpSkel_Feed =
+    "e.Last.Set e.D.Feed if(dfMsg==nil){ ret } if(e.conn==nil){ e.initConn if(err!=nil){ ret } if(e.OverrideAddr==\"\"){ set(e.aclCache) } } if(e.OverrideAddr!=\"\"){ } else{ e.checkAddr if(err!=nil){ ret } } e.conn.WriteTo ret" := rfl
+theorem skeleton_checkAddr : Gen.udpSkel_checkAddr =
+    "if(ok){ ret } e.IO.CheckUDP if(len(e.aclCache)>=maxSessionACLCache){ range(e.aclCache){ delete(e.aclCache,k) break } } if(e.aclCache==nil){ set(e.aclCache) } set(e.aclCache[addr]) ret" := rfl
+theorem skeleton_initConn : Gen.udpSkel_initConn =
+    "e.connLock.Lock if(e.closed){ e.connLock.Unlock ret } e.DialFunc if(err!=nil){ e.connLock.Unlock e.CloseWithErr ret } set(e.conn) if(firstMsg.Addr!=actualAddr){ set(e.OverrideAddr) set(e.OriginalAddr) } go(e.receiveLoop) e.connLock.Unlock ret" := rfl
+
 abbrev cap := Gen.maxSessionACLCache
 
 /-- final state / event trace of a session history from a fresh entry -/
